@@ -347,7 +347,7 @@ def gen_surface(rng, variant=None, img_id=1, side=0, geom=None, density=None):
     if variant == 'opus':
         tracks = geom[0] if geom else rng.weighted([(4, 40), (3, 80), (2, 35)])
         spt = 18
-        nvol = rng.weighted([(3, 1), (3, 2), (2, rng.randint(3, 8))])
+        nvol = rng.weighted([(3, 1), (3, 2), (2, rng.randint(3, 7)), (1, 8)])
         nvol = min(nvol, tracks - 1)
         # volume start tracks: increasing, first at track 1
         cuts = sorted(rng.sample(range(2, tracks), nvol - 1)) if nvol > 1 else []
